@@ -71,10 +71,15 @@ impl<T: RefCnt> HybridProtection<T> {
         // First, we claim a debt slot and store the address of the atomic pointer there, so the
         // writer can optionally help us out with loading and protecting something.
         let (gen, discard) = node.new_helping(storage as *const _ as usize);
-        // We already synchronized the start of the sequence by SeqCst in the new_helping vs swap on
-        // the pointer. We just need to make sure to bring the pointee in (this can be newer than
-        // what we got in the Debt)
-        let candidate = storage.load(Acquire);
+        // We need to bring the pointee in (this can be newer than what we got in the Debt) ‒ that
+        // would be Acquire.
+        //
+        // But it must also not be *older* than what a writer replaced before it looked at our
+        // control and found no generation there. The SeqCst operations on the control do not
+        // order this load against the writer's swap on their own (they are on a different
+        // variable), so a merely Acquire load could legally return the previous, already released
+        // pointer and the confirmation below would not notice. Therefore SeqCst here too.
+        let candidate = storage.load(SeqCst);
 
         // Try to replace the debt with our candidate. If it works, we get the debt slot to use. If
         // not, we get a replacement value, already protected and a debt to take care of.
